@@ -12,11 +12,16 @@
 
 use nomt_core::hasher::{BinaryHash, BinaryHasher};
 
-pub const N: usize = 24;
+pub const N: usize = 20;
 
-static mut IN: [[u64; 8]; N] = [[0; 8]; N];
-static mut OUT: [[u64; 4]; N] = [[0; 4]; N];
-static mut CNT: usize = 0;
+// NOTE (Kani 0.68 pitfall, found the hard way): a `static mut` whose initial bytes equal those of
+// some promoted constant (e.g. `0usize`, which is `Vec::new()`'s capacity) is *merged* with that
+// constant's allocation by the codegen, so writing the static rewrites the constant. Every
+// mutable static therefore gets a distinctive initialiser and the counter is stored with a bias.
+const CNT_BIAS: usize = 0x5eed_c0de_0000;
+static mut IN: [[u64; 8]; N] = [[0x5a5a_0000_1111_0001; 8]; N];
+static mut OUT: [[u64; 4]; N] = [[0x5a5a_0000_2222_0002; 4]; N];
+static mut CNT: usize = CNT_BIAS;
 
 pub struct SymHash;
 pub type SymHasher = BinaryHasher<SymHash>;
@@ -39,7 +44,7 @@ fn w(b: &[u8; 32], i: usize) -> u64 {
 const LOW255_W0: u64 = !0x80u64;
 
 pub fn calls() -> usize {
-    unsafe { CNT }
+    unsafe { CNT - CNT_BIAS }
 }
 
 impl BinaryHash for SymHash {
@@ -50,7 +55,7 @@ impl BinaryHash for SymHash {
 
     fn hash2_32_concat(left: &[u8; 32], right: &[u8; 32]) -> [u8; 32] {
         unsafe {
-            let i = CNT;
+            let i = CNT - CNT_BIAS;
             assert!(i < N, "SymHash table bound exceeded");
             let inp = [
                 w(left, 0),
@@ -86,7 +91,7 @@ impl BinaryHash for SymHash {
             }
             IN[i] = inp;
             OUT[i] = out;
-            CNT = i + 1;
+            CNT = CNT_BIAS + i + 1;
             let mut r = [0u8; 32];
             let mut k = 0;
             while k < 4 {
